@@ -87,6 +87,18 @@ func allSpecs() map[string]*PropSpec {
 		NotDecided:  "that the range inside each location is the right one (C08); parse equality after applying the edits; unsaved edits of files that are not open.",
 		Rules:       append([]func(*Ctx){ruleC09, ruleT9("T9", [2]string{"internal/server", "findCommodityReferences"}), ruleMapOrder}, wsFresh...),
 	})
+	add(&PropSpec{
+		ID:          "C16",
+		Explanation: "I-LIMIT: the list returned by completion is the ranked list or its zero-based prefix ranked[:MaxResults] taken under len(ranked) > MaxResults, and the limit is read only by the normaliser, the settings parser and that truncation (so a smaller maximum yields a prefix of a larger one and at most the maximum is returned). I-ORDER: generate -> filter -> rank -> truncate by data flow. I-FLAG: the filter's mode argument is the unmodified fuzzyMatching setting from the per-request settings snapshot. I-RANK: the ranking comparator is descending in score and in use count. I-RANGE: the replace range ends at the request position, its start is a byte offset clamped to the cursor and converted to UTF-16. M-ORDER (item order), workspace freshness (names offered exist in the workspace) and T6 for the two completion settings.",
+		NotDecided:  "soundness/completeness of the offered set against the symbol table, the fuzzy and prefix predicates, the context classifier (value semantics).",
+		Rules:       append([]func(*Ctx){rulePipeline, ruleMapOrder}, wsFresh...),
+	})
+	add(&PropSpec{
+		ID:          "C08",
+		Explanation: "units: every integer in the module gets a unit (byte offset / rune count / UTF-16 code unit / line) from a table of sources (len, strings.Index*, utf8.*, lsputil conversions, lexer and AST position fields, protocol.Position fields, semantic-token fields) and the unit is propagated through arithmetic, conversions, phis, calls and struct fields. Reported: arithmetic or comparison between different units (U-MIX), a value stored into a field of another unit, e.g. a rune or byte count into protocol.Position.Character (U-STORE), a wrong-unit argument to a conversion helper (U-ARG), a string indexed by a non-byte quantity (U-INDEX). The column unit of the lexer/AST is read from the lexer's own advance code on every run.",
+		NotDecided:  "that a unit-correct range is the right range (payee column estimated from the date width, fold end taken from the next token); containment in the document as a value-level fact.",
+		Rules:       []func(*Ctx){ruleUnits("module", nil), ruleUnitClamp},
+	})
 	return m
 }
 
